@@ -1,6 +1,6 @@
 SPECIFICATION Spec
 CONSTANTS
-  S = 5
+  S = 7
   Abis <- AbisLP64
   Cfgs <- Cfgs3
   Types <- TypesImg
